@@ -136,6 +136,8 @@ void harness_init();                 // defined by the harness (may be empty)
 
 // --- RNG / clock control (interpose.cc) ------------------------------------
 void rng_seed(uint64_t seed);                 // (re)seed the calling thread's stream
+void rng_push(uint64_t seed);                 // save the calling thread's stream and start a fresh one
+void rng_pop();                               // restore the saved stream
 void rng_script(const std::vector<unsigned char> &bytes); // bytes served before the stream
 void rng_script_requests(const std::vector<int> &fills); // i-th upcoming request: every byte = fills[i] (>=0) or stream (-1)
 void rng_script_clear();
